@@ -61,6 +61,7 @@ where
       let s_next = s.clone();
       let s_error = s.clone();
       let s_complete = s.clone();
+      let s_check = s.clone();
 
       *sbsc.write().unwrap() = Some(
         utils::ready_set_go(
@@ -94,6 +95,13 @@ where
           },
         ),
       );
+      if !s_check.is_subscribed() {
+        // the subscriber finished while the history was replayed: its teardown ran before the
+        // subscription above was stored, so release it now
+        if let Some(sbsc) = &*sbsc.read().unwrap() {
+          sbsc.unsubscribe();
+        }
+      }
     })
   }
 
